@@ -30,6 +30,10 @@ class Panic(Exception):
         self.site = site    # (function path, kind, ordinal among the function's terminators of that kind): line-free identity
 
 
+class Infeasible(Exception):
+    pass
+
+
 class Budget(Exception):
     def __init__(self, where):
         self.where = where
@@ -162,6 +166,11 @@ class Interp:
         self.trace = []
         self.events = []       # observer events (calls with abstract args etc.)
         self.tables = {}       # origin path -> literal table contents (R4)
+        self.fork = False      # may-mode: undecided branches fork (by re-execution with a decision script)
+        self.script = []
+        self.pos = 0
+        self.fanout = []
+        self.live_frames = []
         self.call_observer = None
         self.assert_observer = None
 
@@ -661,12 +670,27 @@ class Interp:
             return aval.rem(a, b)
         elif base in ('BitAnd', 'BitOr', 'BitXor'):
             if a.bits == 1 and b.bits == 1:
-                return self.bool_op(base, a, b)
-            return aval.bitop(base, a, b)
+                r = self.bool_op(base, a, b)
+                if not r.is_const():
+                    r.prov = ('boolop', base, a, b)
+                return r
+            r = aval.bitop(base, a, b)
+            if base == 'BitAnd' and not r.is_const():
+                if b.is_const():
+                    r.prov = ('and', a, b.uval())
+                elif a.is_const():
+                    r.prov = ('and', b, a.uval())
+            return r
         elif base in ('Shl', 'Shr'):
-            return aval.shift(base, a, b)
+            r = aval.shift(base, a, b)
+            if base == 'Shr' and b.is_const() and not r.is_const() and not a.signed:
+                r.prov = ('shr', a, b.lo % a.bits)
+            return r
         elif base in ('Eq', 'Ne', 'Lt', 'Le', 'Gt', 'Ge'):
-            return aval.cmp(base, a, b)
+            r = aval.cmp(base, a, b)
+            if not r.is_const():
+                r.prov = ('cmp', base, a, b)
+            return r
         elif base == 'Cmp':
             lt = aval.cmp('Lt', a, b)
             eq = aval.cmp('Eq', a, b)
@@ -771,6 +795,7 @@ class Interp:
                         r = AInt.boolean(None)
                         if a.sym is not None and isinstance(a.sym[0], tuple):
                             r.sym = [aval.bit_not(a.sym[0])]
+                        r.prov = ('not', a)
                     r.taint = a.taint
                     return r
                 return aval.bitnot(a)
@@ -799,7 +824,10 @@ class Interp:
         if kind == 'IntToInt':
             if isinstance(a, AInt):
                 if t['k'] == 'int':
-                    return aval.cast_int(a, t['bits'], t['signed'])
+                    r = aval.cast_int(a, t['bits'], t['signed'])
+                    if not r.is_const():
+                        r.prov = ('cast', a)
+                    return r
                 if t['k'] == 'bool':
                     return a
                 if t['k'] == 'char':
@@ -862,10 +890,17 @@ class Interp:
         self.steps = 0
         self.assumed = []
         self.trace = []
+        self.live_frames = []
+        # static frames referenced by argument references take part in refinement
+        for a in args:
+            if isinstance(a, ARef) and a.frame not in self.live_frames:
+                self.live_frames.append(a.frame)
         out = None
         try:
             v = self.run_body(body, genv, args, 0)
             out = Outcome('return', v)
+        except Infeasible:
+            out = Outcome('infeasible')
         except Undecided as u:
             out = Outcome('undecided', None, u.where, u.why)
         except Panic as p:
@@ -878,6 +913,35 @@ class Interp:
         out.steps = self.steps
         return out
 
+    def explore(self, path, mkargs, gargs=None, max_paths=400):
+        """may-mode: enumerate every path through undecided branches (with refinement).  mkargs() must build fresh arguments.
+        returns (list of Outcomes, complete?)"""
+        self.fork = True
+        outs = []
+        stack = [[]]
+        complete = True
+        try:
+            while stack:
+                if len(outs) >= max_paths:
+                    complete = False
+                    break
+                script = stack.pop()
+                self.script = list(script)
+                self.pos = 0
+                self.fanout = []
+                if self.call_hook is not None and hasattr(self.call_hook, 'reset_path'):
+                    self.call_hook.reset_path()
+                out = self.run(path, mkargs(), gargs)
+                out.script = list(self.script)
+                outs.append(out)
+                # schedule the untried alternatives of every decision made beyond the replayed prefix
+                for i in range(len(script), len(self.fanout)):
+                    for alt in range(1, self.fanout[i]):
+                        stack.append(self.script[:i] + [alt])
+        finally:
+            self.fork = False
+        return outs, complete
+
     def run_body(self, body, genv, args, depth):
         if depth > self.max_depth:
             raise Unsupported('call depth')
@@ -885,6 +949,13 @@ class Interp:
         frame.locals[0] = None
         for i, a in enumerate(args):
             frame.locals[i + 1] = a
+        self.live_frames.append(frame)
+        try:
+            return self._run_frame(frame, body)
+        finally:
+            self.live_frames.pop()
+
+    def _run_frame(self, frame, body):
         bb = 0
         blocks = body['blocks']
         visits = {}
@@ -926,6 +997,15 @@ class Interp:
                 if isinstance(c, AInt) and c.is_const():
                     if c.lo != exp:
                         raise Panic('assert:' + t['kind'], self.where(frame, t['span']), site=self.site_of(body, bb, 'assert', t['kind']))
+                elif self.fork and isinstance(c, AInt):
+                    k = self.choose(2)
+                    if k == 0:
+                        if not self.refine_value(c, ('Eq', exp)):
+                            raise Infeasible()
+                    else:
+                        if not self.refine_value(c, ('Eq', 1 - exp)):
+                            raise Infeasible()
+                        raise Panic('assert:' + t['kind'], self.where(frame, t['span']), site=self.site_of(body, bb, 'assert', t['kind']))
                 else:
                     self.assumed.append(('assert', t['kind'], self.where(frame, t['span'])))
                 bb = t['target']
@@ -963,7 +1043,6 @@ class Interp:
     def switch(self, frame, t, d):
         if isinstance(d, AInt):
             dm = mask(d.bits)
-            hit = None
             possible = []
             for v, target in t['targets']:
                 vv = to_signed(v, d.bits) if d.signed else v
@@ -983,7 +1062,145 @@ class Interp:
             targets = set(x[1] for x in possible) | {t['otherwise']}
             if len(targets) == 1:
                 return targets.pop()
+            if self.fork:
+                # alternatives: each explicitly listed possible value, then "otherwise" (if any value is left for it)
+                alts = [('eq', vv, target) for vv, target in possible]
+                if len(possible) < (d.hi - d.lo + 1):
+                    alts.append(('other', [vv for vv, _ in possible], t['otherwise']))
+                while True:
+                    k = self.choose(len(alts))
+                    kind, val, target = alts[k]
+                    ok = self.refine_value(d, ('Eq', val)) if kind == 'eq' else all(self.refine_value(d, ('Ne', v)) for v in val)
+                    if ok:
+                        return target
+                    raise Infeasible()
         raise Undecided(self.where(frame, t['span']), 'switch on %r' % (d,))
+
+    # ------------------------------------------------------------------ may-mode: forks by re-execution
+    def choose(self, n):
+        """next decision of the current path: replay the script, then take alternative 0 and remember the fan-out"""
+        if self.pos < len(self.script):
+            k = self.script[self.pos]
+        else:
+            k = 0
+            self.script.append(0)
+        self.fanout.append(n)
+        self.pos += 1
+        return k
+
+    def substitute(self, old, new):
+        """replace the value object `old` by `new` in every live frame (locals and aggregates)"""
+        def sub(v):
+            if v is old:
+                return new
+            if isinstance(v, AAgg):
+                for i, f in enumerate(v.fields):
+                    nf = sub(f)
+                    if nf is not f:
+                        v.fields[i] = nf
+            return v
+        for fr in self.live_frames:
+            for i, v in enumerate(fr.locals):
+                if v is not None:
+                    nv = sub(v)
+                    if nv is not v:
+                        fr.locals[i] = nv
+
+    def refine_value(self, x, fact, depth=0):
+        """assume `x <op> const` (fact = (op, c)); refines x and, through its provenance, the values it was computed from.
+        returns False when the assumption is infeasible."""
+        if not isinstance(x, AInt) or depth > 8:
+            return True
+        op, c = fact
+        cv = AInt.const(x.bits, x.signed, c)
+        nx = aval.refine_cmp(op, x, cv)
+        if nx is None:
+            return False
+        nx.prov = x.prov
+        if nx.lo != x.lo or nx.hi != x.hi or nx.kz != x.kz or nx.ko != x.ko:
+            self.substitute(x, nx)
+        pv = x.prov
+        if pv is None:
+            return True
+        k = pv[0]
+        if k == 'cast':
+            src = pv[1]
+            if src.bits <= x.bits or (nx.lo >= 0 and nx.hi <= mask(min(src.bits, x.bits) - 1)):
+                # value-preserving direction: the same fact holds for the source when it fits
+                tmin, tmax = AInt.trange(src.bits, src.signed)
+                if op in ('Eq', 'Ne', 'Lt', 'Le', 'Gt', 'Ge') and tmin <= c <= tmax and (src.signed == x.signed or (src.lo >= 0 and c >= 0)):
+                    return self.refine_value(src, (op, c), depth + 1)
+            return True
+        if x.bits == 1 and op in ('Eq', 'Ne'):
+            truth = (c == 1) if op == 'Eq' else (c == 0)
+            if k == 'not':
+                return self.refine_value(pv[1], ('Eq', 0 if truth else 1), depth + 1)
+            if k == 'cmp':
+                _, cop, a, b = pv
+                if not truth:
+                    cop = {'Eq': 'Ne', 'Ne': 'Eq', 'Lt': 'Ge', 'Ge': 'Lt', 'Le': 'Gt', 'Gt': 'Le'}[cop]
+                ok = True
+                if isinstance(b, AInt) and b.is_const():
+                    ok = self.refine_value(a, (cop, b.lo), depth + 1)
+                elif isinstance(a, AInt) and a.is_const():
+                    flip = {'Eq': 'Eq', 'Ne': 'Ne', 'Lt': 'Gt', 'Gt': 'Lt', 'Le': 'Ge', 'Ge': 'Le'}[cop]
+                    ok = self.refine_value(b, (flip, a.lo), depth + 1)
+                elif isinstance(a, AInt) and isinstance(b, AInt):
+                    na = aval.refine_cmp(cop, a, b)
+                    flip = {'Eq': 'Eq', 'Ne': 'Ne', 'Lt': 'Gt', 'Gt': 'Lt', 'Le': 'Ge', 'Ge': 'Le'}[cop]
+                    nb = aval.refine_cmp(flip, b, a)
+                    if na is None or nb is None:
+                        return False
+                    na.prov, nb.prov = a.prov, b.prov
+                    self.substitute(a, na)
+                    self.substitute(b, nb)
+                return ok
+            if k == 'boolop':
+                _, bop, a, b = pv
+                if bop == 'BitAnd' and truth:
+                    return self.refine_value(a, ('Eq', 1), depth + 1) and self.refine_value(b, ('Eq', 1), depth + 1)
+                if bop == 'BitOr' and not truth:
+                    return self.refine_value(a, ('Eq', 0), depth + 1) and self.refine_value(b, ('Eq', 0), depth + 1)
+            return True
+        if k == 'and':
+            src, m = pv[1], pv[2]
+            if op == 'Eq' and c == 0:
+                # all masked bits are zero
+                if src.ko & m:
+                    return False
+                try:
+                    ns = AInt(src.bits, src.signed, src.lo, src.hi, src.kz | m, src.ko, term=src.term, sym=src.sym, taint=src.taint)
+                except AssertionError:
+                    return False
+                ns.prov = src.prov
+                self.substitute(src, ns)
+            elif ((op == 'Ne' and c == 0) or (op == 'Eq' and c == m)) and m and (m & (m - 1)) == 0:
+                if src.kz & m:
+                    return False
+                try:
+                    ns = AInt(src.bits, src.signed, src.lo, src.hi, src.kz, src.ko | m, term=src.term, sym=src.sym, taint=src.taint)
+                except AssertionError:
+                    return False
+                ns.prov = src.prov
+                self.substitute(src, ns)
+            elif op == 'Ne' and c == 0 and not src.signed:
+                # some masked bit is set: value >= lowest bit of the mask
+                low = m & (-m)
+                return self.refine_value(src, ('Ge', low), depth + 1)
+            return True
+        if k == 'shr':
+            src, n = pv[1], pv[2]
+            if not src.signed:
+                if op == 'Eq':
+                    return self.refine_value(src, ('Ge', c << n), depth + 1) and self.refine_value(src, ('Le', ((c + 1) << n) - 1), depth + 1)
+                if op == 'Ne' and c == 0:
+                    return self.refine_value(src, ('Ge', 1 << n), depth + 1)
+                if op in ('Lt',):
+                    return self.refine_value(src, ('Lt', c << n), depth + 1)
+                if op in ('Ge',):
+                    return self.refine_value(src, ('Ge', c << n), depth + 1)
+            return True
+        return True
 
     # ------------------------------------------------------------------ calls
     def do_call(self, frame, t):
